@@ -14,3 +14,258 @@ Proof.
   intros q ct H1 H2 H3 H4. unfold ingest_params_of. cbn [ip_spy ip_rate ip_units ip_aggregation].
   rewrite H1, H2, H3, H4. repeat split.
 Qed.
+
+(* ---------------------------------------------------------------------------------------------- *)
+(* strconv.Itoa / strconv.Atoi *)
+From Coq Require Import ZifyN ZifyNat ZifyBool.
+Ltac Zify.zify_post_hook ::= Z.div_mod_to_equations.
+
+Lemma log2_div10 n : 10 <= n -> N.log2 (n / 10) < N.log2 n.
+Proof.
+  intros H.
+  assert (H2 : N.log2 (n / 2) = N.log2 n - 1).
+  { change 2 with (2 ^ 1). rewrite <- N.shiftr_div_pow2. apply N.log2_shiftr. }
+  assert (3 <= N.log2 n). { change 3 with (N.log2 8). apply N.log2_le_mono. lia. }
+  assert (N.log2 (n / 10) <= N.log2 (n / 2)). { apply N.log2_le_mono. lia. }
+  lia.
+Qed.
+
+Lemma is_digit_48 x : x < 10 -> is_digit (48 + x) = true.
+Proof. intros H. unfold is_digit. lia. Qed.
+
+Lemma itoa_fuel_val : forall f n acc, (N.to_nat (N.log2 n) < f)%nat ->
+  exists k, forall a, digits_val a (itoa_fuel f n acc) = digits_val (a * 10 ^ k + n) acc.
+Proof.
+  induction f as [|f IH]; intros n acc Hf; [lia|]. cbn [itoa_fuel].
+  destruct (N.ltb_spec n 10) as [Hs|Hb].
+  - exists 1. intros a. cbn [digits_val]. rewrite is_digit_48 by lia. f_equal. lia.
+  - pose proof (log2_div10 n Hb).
+    destruct (IH (n / 10) ((48 + n mod 10) :: acc)) as (k & Hk); [lia|].
+    exists (k + 1). intros a. rewrite Hk. cbn [digits_val]. rewrite is_digit_48 by lia. f_equal.
+    rewrite N.pow_add_r. lia.
+Qed.
+
+Lemma itoa_val n : digits_val 0 (itoa n) = Some n.
+Proof.
+  unfold itoa. destruct (itoa_fuel_val (S (N.to_nat (N.log2 n))) n []) as (k & Hk); [lia|].
+  rewrite Hk. cbn. f_equal.
+Qed.
+
+Lemma itoa_fuel_head : forall f n d0 acc, is_digit d0 = true ->
+  exists d r, itoa_fuel f n (d0 :: acc) = d :: r /\ is_digit d = true.
+Proof.
+  induction f as [|f IH]; intros n d0 acc Hd; [exists d0, acc; now split|]. cbn [itoa_fuel].
+  destruct (n <? 10).
+  - eexists _, _. split; [reflexivity|]. apply is_digit_48. lia.
+  - apply IH. apply is_digit_48. lia.
+Qed.
+
+Lemma itoa_head n : exists d r, itoa n = d :: r /\ is_digit d = true.
+Proof.
+  unfold itoa. cbn [itoa_fuel]. destruct (n <? 10).
+  - eexists _, _. split; [reflexivity|]. apply is_digit_48. lia.
+  - apply itoa_fuel_head. apply is_digit_48. lia.
+Qed.
+
+Lemma atoi_digit_head d r : is_digit d = true ->
+  atoi (d :: r) = match digits_val 0 (d :: r) with
+                  | None => None
+                  | Some n => if n <? 2 ^ 63 then Some (Z.of_N n) else None
+                  end.
+Proof.
+  intros H. unfold is_digit in H.
+  assert (E : d = 48 \/ d = 49 \/ d = 50 \/ d = 51 \/ d = 52 \/ d = 53 \/ d = 54 \/ d = 55 \/ d = 56 \/ d = 57) by lia.
+  destruct E as [->|[->|[->|[->|[->|[->|[->|[->|[->| ->]]]]]]]]]; reflexivity.
+Qed.
+
+Theorem atoi_itoa n : n < 2 ^ 63 -> atoi (itoa n) = Some (Z.of_N n).
+Proof.
+  intros Hn. destruct (itoa_head n) as (d & r & E & Hd).
+  pose proof (itoa_val n) as Hv. rewrite E in *. rewrite atoi_digit_head by exact Hd. rewrite Hv.
+  destruct (N.ltb_spec n (2 ^ 63)); [reflexivity|lia].
+Qed.
+
+Lemma digits_val_all : forall s a v, digits_val a s = Some v -> forallb is_digit s = true.
+Proof.
+  induction s as [|c s IH]; intros a v H; [reflexivity|]. cbn in *.
+  destruct (is_digit c); [|discriminate]. cbn. eapply IH; eauto.
+Qed.
+
+Lemma itoa_all_digits n : forallb is_digit (itoa n) = true.
+Proof. eapply digits_val_all. apply itoa_val. Qed.
+
+(* ---------------------------------------------------------------------------------------------- *)
+(* the uploader's query is read back by the handler as the job's own parameters *)
+
+Definition job_ok (j : upload_job) : Prop :=
+  j_start j < 2 ^ 63 /\ j_end j < 2 ^ 63 /\ j_rate j < 2 ^ 32 /\
+  j_spy j <> [] /\ j_units j <> [] /\ j_aggregation j <> [] /\
+  (* attime.Parse reads an 8-digit string as a calendar date *)
+  length (itoa (j_start j)) <> 8%nat /\ length (itoa (j_end j)) <> 8%nat.
+
+Lemma parse_time_arg_itoa n : n < 2 ^ 63 -> length (itoa n) <> 8%nat ->
+  parse_time_arg (itoa n) = TUnix (Z.of_N n).
+Proof.
+  intros Hn Hl. unfold parse_time_arg. destruct (itoa_head n) as (d & r & E & Hd).
+  pose proof (itoa_all_digits n) as Ha. pose proof (atoi_itoa n Hn) as Hat. rewrite E in *.
+  unfold all_digits. rewrite Ha. cbn [negb andb].
+  destruct (Nat.eqb_spec (length (d :: r)) 8); [contradiction|]. cbn [negb]. now rewrite Hat.
+Qed.
+
+Lemma job_roundtrip : forall j, job_ok j ->
+  ingest_params_of (upload_query j) upload_content_type =
+  {| ip_format := FTrie; ip_name := j_name j;
+     ip_from := TUnix (Z.of_N (j_start j)); ip_until := TUnix (Z.of_N (j_end j));
+     ip_spy := j_spy j; ip_rate := j_rate j; ip_units := j_units j; ip_aggregation := j_aggregation j |}.
+Proof.
+  intros j (H1 & H2 & H3 & H4 & H5 & H6 & H7 & H8). unfold ingest_params_of.
+  change (q_get (ascii "format") (upload_query j)) with (@nil byte).
+  change (q_get (ascii "name") (upload_query j)) with (j_name j).
+  change (q_get (ascii "from") (upload_query j)) with (itoa (j_start j)).
+  change (q_get (ascii "until") (upload_query j)) with (itoa (j_end j)).
+  change (q_get (ascii "spyName") (upload_query j)) with (j_spy j).
+  change (q_get (ascii "sampleRate") (upload_query j)) with (itoa (j_rate j)).
+  change (q_get (ascii "units") (upload_query j)) with (j_units j).
+  change (q_get (ascii "aggregationType") (upload_query j)) with (j_aggregation j).
+  change (select_format [] upload_content_type) with FTrie.
+  rewrite !parse_time_arg_itoa by assumption.
+  assert (Hr : match itoa (j_rate j) with
+               | [] => default_sample_rate
+               | _ :: _ => match atoi (itoa (j_rate j)) with
+                           | Some v => Z.to_N (v mod 2 ^ 32)%Z
+                           | None => default_sample_rate
+                           end
+               end = j_rate j).
+  { destruct (itoa_head (j_rate j)) as (d & r & E & _). rewrite atoi_itoa by lia. rewrite E.
+    rewrite Z.mod_small by lia. lia. }
+  f_equal.
+  - destruct (j_spy j); [congruence|reflexivity].
+  - destruct (itoa (j_rate j)) eqn:E; exact Hr.
+  - destruct (j_units j); [congruence|reflexivity].
+  - destruct (j_aggregation j); [congruence|reflexivity].
+Qed.
+
+(* ---------------------------------------------------------------------------------------------- *)
+(* bufio.ScanLines on a body made of '\n'-terminated lines *)
+
+Definition no_byte (b : byte) (s : bytes) : Prop := Forall (fun c => c <> b) s.
+
+Lemma raw_lines_aux_line : forall l cur rest, no_byte 10 l ->
+  raw_lines_aux cur (l ++ 10 :: rest) = (rev cur ++ l) :: raw_lines_aux [] rest.
+Proof.
+  induction l as [|c l IH]; intros cur rest H; cbn [app raw_lines_aux].
+  - rewrite N.eqb_refl, app_nil_r. reflexivity.
+  - inversion H as [|? ? Hc Hl]; subst. destruct (N.eqb_spec c 10); [contradiction|].
+    rewrite IH by exact Hl. cbn [rev]. now rewrite <- app_assoc.
+Qed.
+
+Lemma raw_lines_lines (ls : list bytes) : Forall (no_byte 10) ls ->
+  raw_lines (flat_map (fun l => l ++ [10]) ls) = ls.
+Proof.
+  unfold raw_lines. induction 1 as [|l ls Hl _ IH]; [reflexivity|].
+  cbn [flat_map]. rewrite <- app_assoc. cbn [app]. rewrite raw_lines_aux_line by exact Hl.
+  cbn [rev app]. now rewrite IH.
+Qed.
+
+Definition line_fits (l : bytes) : Prop := N.of_nat (length l) < max_token.
+
+Lemma drop_cr_keep l : (forall s c, l = s ++ [c] -> c <> 13) -> drop_cr l = l.
+Proof.
+  intros H. unfold drop_cr.
+  match goal with |- context [match ?x with [] => _ | _ :: _ => _ end] => remember x as rl eqn:E end.
+  destruct rl as [|c r]; [reflexivity|].
+  destruct (N.eqb_spec c 13) as [->|]; [|reflexivity].
+  exfalso. apply (H (rev r) 13); [|reflexivity].
+  apply (f_equal (@rev _)) in E. rewrite rev_involutive in E. cbn [rev] in E. symmetry. exact E.
+Qed.
+
+Lemma scan_tokens_keep (ls : list bytes) :
+  Forall line_fits ls -> Forall (fun l => drop_cr l = l) ls -> scan_tokens ls = (ls, true).
+Proof.
+  induction 1 as [|l ls Hl _ IH]; intros Hd; [reflexivity|]. inversion Hd as [|? ? D1 D2]; subst.
+  cbn [scan_tokens]. unfold line_fits in Hl. destruct (N.leb_spec max_token (N.of_nat (length l))); [lia|].
+  rewrite (IH D2), D1. reflexivity.
+Qed.
+
+(* bytes.LastIndexByte(line, ' ') *)
+Lemma split_last_space_none s : no_byte 32 s -> split_last_space s = None.
+Proof.
+  induction 1 as [|c s Hc _ IH]; [reflexivity|]. cbn. rewrite IH. destruct (N.eqb_spec c 32); [contradiction|reflexivity].
+Qed.
+
+Lemma split_last_space_app k ds : no_byte 32 ds -> split_last_space (k ++ 32 :: ds) = Some (k, ds).
+Proof.
+  intros H. induction k as [|c k IH]; cbn [app split_last_space].
+  - rewrite (split_last_space_none ds H). reflexivity.
+  - rewrite IH. reflexivity.
+Qed.
+
+Lemma digits_no_byte b s : forallb is_digit s = true -> is_digit b = false -> no_byte b s.
+Proof.
+  intros H Hb. apply Forall_forall. intros c Hc E. subst c.
+  rewrite forallb_forall in H. rewrite (H b Hc) in Hb. discriminate.
+Qed.
+
+(* ---------------------------------------------------------------------------------------------- *)
+(* collapsed text: "stack count\n" per entry *)
+
+Definition group_line (kv : bytes * N) : bytes := fst kv ++ 32 :: itoa (snd kv).
+
+Definition group_ok (kv : bytes * N) : Prop :=
+  no_byte 10 (fst kv) /\ snd kv < 2 ^ 63 /\ line_fits (group_line kv).
+
+Lemma render_groups_eq ms : render_groups ms = flat_map (fun l => l ++ [10]) (map group_line ms).
+Proof.
+  unfold render_groups. induction ms as [|kv ms IH]; [reflexivity|]. cbn [flat_map map]. rewrite IH.
+  f_equal. unfold group_line. rewrite <- app_assoc. reflexivity.
+Qed.
+
+Lemma group_line_no_nl kv : no_byte 10 (fst kv) -> no_byte 10 (group_line kv).
+Proof.
+  intros H. unfold group_line, no_byte. apply Forall_app. split; [exact H|].
+  constructor; [discriminate|]. apply (digits_no_byte 10); [apply itoa_all_digits|reflexivity].
+Qed.
+
+Lemma group_line_drop_cr kv : drop_cr (group_line kv) = group_line kv.
+Proof.
+  apply drop_cr_keep. intros s c E Hc. subst c.
+  assert (Hin : In 13 (itoa (snd kv))).
+  { unfold group_line in E. destruct (itoa_head (snd kv)) as (d & r & Ei & _).
+    destruct (exists_last (l := itoa (snd kv))) as (s' & c' & Es); [rewrite Ei; discriminate|].
+    rewrite Es in E. change (fst kv ++ 32 :: s' ++ [c']) with (fst kv ++ (32 :: s') ++ [c']) in E.
+    rewrite app_assoc in E. apply app_inj_tail in E. destruct E as [_ ->].
+    rewrite Es. apply in_or_app. right. now left. }
+  pose proof (itoa_all_digits (snd kv)) as Hd. rewrite forallb_forall in Hd.
+  specialize (Hd 13 Hin). discriminate.
+Qed.
+
+Lemma groups_of_group_lines ms : Forall group_ok ms ->
+  groups_of_tokens (map group_line ms) = (map (fun kv => (fst kv, Z.of_N (snd kv))) ms, true).
+Proof.
+  induction 1 as [|kv ms (H1 & H2 & H3) _ IH]; [reflexivity|]. cbn [map groups_of_tokens].
+  unfold group_line at 1. rewrite split_last_space_app
+    by (apply (digits_no_byte 32); [apply itoa_all_digits|reflexivity]).
+  rewrite atoi_itoa by exact H2. rewrite IH. reflexivity.
+Qed.
+
+Lemma parse_groups_render ms : Forall group_ok ms ->
+  parse_groups (render_groups ms) = (map (fun kv => (fst kv, Z.of_N (snd kv))) ms, true).
+Proof.
+  intros H. unfold parse_groups, scan_lines. rewrite render_groups_eq, raw_lines_lines.
+  - rewrite scan_tokens_keep.
+    + rewrite groups_of_group_lines by exact H. reflexivity.
+    + apply Forall_map. eapply Forall_impl; [|exact H]. intros kv (_ & _ & H3). exact H3.
+    + apply Forall_map. apply Forall_forall. intros kv _. apply group_line_drop_cr.
+  - apply Forall_map. eapply Forall_impl; [|exact H]. intros kv (H1 & _). now apply group_line_no_nl.
+Qed.
+
+Lemma to_uint64_of_N v : v < 2 ^ 64 -> to_uint64 (Z.of_N v) = v.
+Proof. intros H. unfold to_uint64. rewrite Z.mod_small by lia. lia. Qed.
+
+Theorem groups_path_agrees ms : Forall group_ok ms ->
+  tree_via_groups (render_groups ms) = Some (profile_of ms).
+Proof.
+  intros H. unfold tree_via_groups. rewrite parse_groups_render by exact H. f_equal.
+  unfold profile_of. generalize t_empty. induction H as [|kv ms (H1 & H2 & H3) _ IH]; intros t; [reflexivity|].
+  cbn [map fold_left fst snd]. rewrite to_uint64_of_N by lia. apply IH.
+Qed.
